@@ -11,7 +11,7 @@ theorem Owns.poolOK {h : H} {owned : List Nat} (o : Owns h owned) : PoolOK h := 
 
 /-- everything except the buffers, the jsonEncoder pool, `tick` and `fault` -/
 def SameObj (h h' : H) : Prop :=
-  h'.slicePool = h.slicePool ∧ h'.cePool = h.cePool ∧ h'.errPoolCore = h.errPoolCore ∧
+  h'.slicePool = h.slicePool ∧ h'.ceh = h.ceh ∧ h'.errPoolCore = h.errPoolCore ∧
   h'.errPoolZap = h.errPoolZap ∧ h'.stackPool = h.stackPool ∧ h'.inflight = h.inflight ∧ h'.live = h.live ∧ h'.out = h.out
 
 theorem SameRest.obj {h h' : H} (r : SameRest h h') : SameObj h h' := r.2
